@@ -449,10 +449,10 @@ func raceScenario(s *Sim, params map[string]string) {
 		opsPer := 0
 		if churn {
 			tr.MetadataTTL = Pick(t, "cfg", 3*time.Millisecond, 10*time.Millisecond)
-			na, opsPer = 6, 25
+			na, opsPer = 6, 15
 			flapper := cl.AddBroker(int32(nb+1), "") // leads nothing
 			at := time.Duration(t.Range("cfg", 1, 20)) * time.Millisecond
-			for k := 0; k < 60; k++ {
+			for k := 0; k < 30; k++ {
 				up := k%2 == 1
 				s.After(at, "broker-flap", func() { cl.SetBrokerUp(flapper, up) })
 				at += time.Duration(t.Range("cfg", 4, 25)) * time.Millisecond
